@@ -264,6 +264,13 @@ class Geometry(DaeObject):
             input_vnode.set('source', '#' + new_source)
             vnode.set('id', new_source + '-vertices')
 
+        # a triangle set loaded from strips or fans is written as <triangles>; its element is
+        # recreated before the inputs are redirected below, so that the first save already
+        # writes what every later save writes
+        for prim in self.primitives:
+            if isinstance(prim, triangleset.TriangleSet) and prim.xmlnode.tag != tag('triangles'):
+                prim._recreateXmlNode()
+
         # any source references in primitives that are pointing to the
         # same source that the vertices tag is pointing to to instead
         # point to the vertices id
@@ -286,10 +293,6 @@ class Geometry(DaeObject):
             double_sided_node.text = "1" if self.double_sided else "0"
         elif self.double_sided:
             self.xmlnode.append(E.extra(E.technique(E.double_sided("1"), profile='GOOGLEEARTH')))
-
-        for prim in self.primitives:
-            if isinstance(prim, triangleset.TriangleSet) and prim.xmlnode.tag != tag('triangles'):
-                prim._recreateXmlNode()
 
         # the mesh holds the sources, <vertices> and the primitives, in the model's order,
         # followed by any <extra> it already had
